@@ -8,8 +8,8 @@
      n = count_ok failed       number of successful realizations
      stair_m p n = floor(p*n)  number of full steps
      stair p n k               1/n for k < m, p - m/n for k = m, 0 for k > m *)
-From Coq Require Import String QArith Qabs Qminmax ZArith Bool Arith List Lqa.
-From Ropt Require Import Base.Num Base.ListX Model.Filters Proofs.SortX Proofs.Filters Proofs.FiltersTies Proofs.FiltersSeq Proofs.FiltersAccept.
+From Coq Require Import String QArith Qabs Qminmax ZArith Bool Arith List Lqa Lia.
+From Ropt Require Import Base.Num Base.ListX Model.Filters Proofs.SortX Proofs.Filters Proofs.FiltersTies Proofs.FiltersSeq Proofs.FiltersAccept Proofs.FiltersOrder Proofs.FiltersStair.
 Import ListNotations.
 Open Scope Q_scope.
 
@@ -214,6 +214,81 @@ Theorem C04_checker_sound_exact : forall p values failed w,
     (nth r failed true = true -> nth r w 0 == 0) /\ (nth r failed true = false -> 0 <= nth r w 0).
 Proof. exact stair_ok_sound_basic. Qed.
 
+(* ---- the tolerance clauses of stair_ok (Proofs/FiltersStair.v).  tolq m = tol_abs + tol_rel * m is the tolerance of
+   Num.close with scale 1 against a reference value m >= 0; n = count_ok failed.
+
+   SOUNDNESS.  What an accepted vector satisfies: the exact clauses above for EVERY index; and, with n > 0 successes, there
+   are a ranking idx of the successful realizations with non-decreasing values (ties in SOME order) and a rank j < n such
+   that along idx every rank before j carries 1/n within tolq(1/n), rank j carries a value in [0, 1/n + tolq(1/n)], every
+   later rank carries exactly 0 (at most one fractional step), the total is p within tolq(|p|), and j full steps plus the
+   entry at rank j make p within tolq(|p|) + j*tolq(1/n) -- the fractional step sits where the percentile puts it *)
+Theorem C04_checker_sound : forall p values failed w,
+  stair_ok p values failed w = true ->
+  length w = length failed /\
+  (forall r, nth r failed true = true -> nth r w 0 == 0) /\
+  (forall r, 0 <= nth r w 0) /\
+  ((0 < count_ok failed)%nat ->
+   exists idx j, valid_order values failed idx /\ (j < count_ok failed)%nat /\
+     (forall k, (k < j)%nat -> Qabs (nth (nth k idx 0%nat) w 0 - 1 / nq (count_ok failed)) <= tolq (1 / nq (count_ok failed))) /\
+     0 <= nth (nth j idx 0%nat) w 0 /\
+     nth (nth j idx 0%nat) w 0 <= 1 / nq (count_ok failed) + tolq (1 / nq (count_ok failed)) /\
+     (forall k, (j < k < count_ok failed)%nat -> nth (nth k idx 0%nat) w 0 == 0) /\
+     Qabs (qsum w - p) <= tolq (Qabs p) /\
+     Qabs (nq j * (1 / nq (count_ok failed)) + nth (nth j idx 0%nat) w 0 - p)
+       <= tolq (Qabs p) + nq j * tolq (1 / nq (count_ok failed))).
+Proof. exact stair_ok_sound. Qed.
+
+(* ... hence, whatever rank j the shape test found, along that ranking EVERY entry is within tolq(p) + n*tolq(1/n) of the
+   exact staircase (by C04_tie_robust, stair p n k is the model's weight at rank k of the model's own ranking) *)
+Theorem C04_checker_near_staircase : forall p values failed w,
+  stair_ok p values failed w = true -> (0 < count_ok failed)%nat -> 0 < p -> p <= 1 ->
+  exists idx, valid_order values failed idx /\
+    forall k, (k < count_ok failed)%nat ->
+      Qabs (nth (nth k idx 0%nat) w 0 - stair p (count_ok failed) k)
+        <= tolq p + nq (count_ok failed) * tolq (1 / nq (count_ok failed)).
+Proof. exact stair_ok_near_staircase. Qed.
+
+(* ... and when p*n is farther than n*(tolq(p) + n*tolq(1/n)) from the integers the fractional step of an accepted vector
+   sits EXACTLY at rank floor(p*n): full steps before it, p - floor(p*n)/n (within tolerance) on it, exact zeros after it *)
+Theorem C04_checker_rank_exact : forall p values failed w,
+  stair_ok p values failed w = true -> (0 < count_ok failed)%nat -> 0 < p -> p <= 1 ->
+  nq (stair_m p (count_ok failed)) + nq (count_ok failed) * (tolq p + nq (count_ok failed) * tolq (1 / nq (count_ok failed)))
+    < p * nq (count_ok failed) ->
+  p * nq (count_ok failed) + nq (count_ok failed) * (tolq p + nq (count_ok failed) * tolq (1 / nq (count_ok failed)))
+    < nq (stair_m p (count_ok failed)) + 1 ->
+  (stair_m p (count_ok failed) < count_ok failed)%nat /\
+  exists idx, valid_order values failed idx /\
+    (forall k, (k < stair_m p (count_ok failed))%nat ->
+       Qabs (nth (nth k idx 0%nat) w 0 - 1 / nq (count_ok failed)) <= tolq (1 / nq (count_ok failed))) /\
+    Qabs (nth (nth (stair_m p (count_ok failed)) idx 0%nat) w 0 - (p - nq (stair_m p (count_ok failed)) / nq (count_ok failed)))
+      <= tolq p + nq (stair_m p (count_ok failed)) * tolq (1 / nq (count_ok failed)) /\
+    (forall k, (stair_m p (count_ok failed) < k < count_ok failed)%nat -> nth (nth k idx 0%nat) w 0 == 0).
+Proof. exact stair_ok_rank_exact. Qed.
+
+(* COMPLETENESS.  The vector _get_cvar_weights_from_percentile builds along EVERY ranking np.argsort may return (cvar_along,
+   see C04_tie_robust) is accepted, in particular the model's own vector, ties or not: the predicate itself cannot raise a
+   false alarm on an exact staircase *)
+Theorem C04_checker_accepts_every_tie_order : forall p values failed idx,
+  length failed = length values -> 0 < p -> p <= 1 -> valid_order values failed idx ->
+  stair_ok p values failed (cvar_along p idx (length values)) = true.
+Proof. exact stair_ok_complete. Qed.
+
+Theorem C04_checker_accepts_model : forall p values failed,
+  length failed = length values -> 0 < p -> p <= 1 ->
+  stair_ok p values failed (cvar_weights p values failed) = true.
+Proof. exact stair_ok_model. Qed.
+
+(* EXACT CHARACTERISATION.  stair_ok accepts exactly the tolerance staircases (tol_staircase n w idx j: full steps within
+   tolerance before rank j, an entry in [0, 1/n + tol] at rank j, exact zeros after it) along SOME ranking consistent with
+   the values, with total p within tolerance: acceptance does not depend on the order the checker itself sorts ties by *)
+Theorem C04_checker_exact : forall p values failed w,
+  stair_ok p values failed w = true <->
+  length w = length failed /\ (forall r, nth r failed true = true -> nth r w 0 == 0) /\ (forall r, 0 <= nth r w 0) /\
+  (count_ok failed = 0%nat \/
+   (Qabs (qsum w - p) <= tolq (Qabs p) /\
+    exists idx j, valid_order values failed idx /\ tol_staircase (count_ok failed) w idx j)).
+Proof. exact stair_ok_iff. Qed.
+
 (* non-vacuity: the input of the repaired defect F04a (10 realizations, p = the double 0.3): three realizations carry
    1/10, the fourth the (positive, tiny) remainder, nothing is negative; and an ensemble with a failed member *)
 Example C04_example :
@@ -247,6 +322,37 @@ Example C04_example_sequence :
     end.
 Proof. vm_compute. eexists. eexists. repeat split; reflexivity. Qed.
 
+(* non-vacuity of the checker theorems: 5 realizations (the last failed), the first three tied, p = 7/20, n = 4 (p*n = 7/5,
+   floor 1, far from the integers: the hypotheses of C04_checker_rank_exact hold).  A staircase along a tie order that is
+   NOT the model's is accepted and differs from the model's vector; a vector with the fractional step on a larger value
+   than an empty tied rank is rejected.  And p = the double 0.3 with n = 10 (p*n within rounding of 3): the vector with three
+   full steps and remainder 0 (what float arithmetic gives when the product rounds to 3.0) is accepted as well *)
+Example C04_example_checker :
+  let values := [Q_ 1 1; Q_ 1 1; Q_ 1 1; Q_ 2 1; Q_ 0 1] in
+  let failed := [false; false; false; false; true] in
+  let p := Q_ 7 20 in
+  let w := [0; Q_ 1 4; Q_ 1 10; 0; 0] in
+  length failed = length values /\ count_ok failed = 4%nat /\ stair_m p 4 = 1%nat /\
+  stair_ok p values failed w = true /\
+  list_eqb Qeqb w (cvar_weights p values failed) = false /\
+  stair_ok p values failed (cvar_weights p values failed) = true /\
+  stair_ok p values failed [Q_ 1 4; 0; 0; Q_ 1 10; 0] = false /\
+  Qltb (nq 1 + nq 4 * (tolq p + nq 4 * tolq (1 / nq 4))) (p * nq 4) = true /\
+  Qltb (p * nq 4 + nq 4 * (tolq p + nq 4 * tolq (1 / nq 4))) (nq 1 + 1) = true /\
+  tol_staircase 4 w [1; 2; 0; 3]%nat 1 /\
+  stair_ok (Q_ 5404319552844595 18014398509481984) (map (fun k => inject_Z k) [0; 1; 2; 3; 4; 5; 6; 7; 8; 9]%Z)
+           (repeat false 10) [Q_ 1 10; Q_ 1 10; Q_ 1 10; 0; 0; 0; 0; 0; 0; 0] = true.
+Proof.
+  cbv zeta. repeat match goal with |- _ /\ _ => split end;
+    try match goal with |- _ = _ => vm_compute; reflexivity end.
+  unfold tol_staircase. repeat match goal with |- _ /\ _ => split end.
+  - lia.
+  - intros k Hk. assert (k = 0%nat) as -> by lia. vm_compute. discriminate.
+  - vm_compute. discriminate.
+  - vm_compute. discriminate.
+  - intros k Hk. assert (k = 2%nat \/ k = 3%nat) as [-> | ->] by lia; vm_compute; reflexivity.
+Qed.
+
 Print Assumptions C04_staircase.
 Print Assumptions C04_exact_zeros.
 Print Assumptions C04_failed_zero.
@@ -268,3 +374,9 @@ Print Assumptions C04_reported_value.
 Print Assumptions C04_gradient_tail_mean.
 Print Assumptions C04_abort_is_too_few.
 Print Assumptions C04_checker_sound_exact.
+Print Assumptions C04_checker_sound.
+Print Assumptions C04_checker_near_staircase.
+Print Assumptions C04_checker_rank_exact.
+Print Assumptions C04_checker_accepts_every_tie_order.
+Print Assumptions C04_checker_accepts_model.
+Print Assumptions C04_checker_exact.
